@@ -256,6 +256,39 @@ def check_sens_deriv(ctx, case):
                  f'derivative with n_coeffs_deriv differs from finite differences by {e:.3g}')
 
 
+def check_grey_zone(ctx, case):
+    """kernel-level witness of the open finding F30: level splitting between one and two (absolute)
+    thresholds at a nearly resonant frequency — the two first-order limits of `_derivative_integral`
+    cancel and the entry is 0 instead of the nested integral (≈ dt²/2)"""
+    from scipy import integrate as sint
+    E = np.array([float(case.get('E', 0.9e-7))])
+    eig = np.array([0.0, float(case.get('split', 1.1e-7))])
+    dt = float(case.get('dt', 1.0))
+    out = np.empty((1, 2, 2, 2, 2), dtype=complex)
+    gradient._derivative_integral(E, eig, dt, out)
+
+    def nested(a, om):
+        # ∫_0^dt dt1 e^{i a t1} ∫_0^{t1} dt2 e^{i om t2}
+        f = lambda t1: np.exp(1j*a*t1)*(np.expm1(1j*om*t1)/(1j*om) if om != 0 else t1)   # noqa
+        re = sint.quad(lambda t: f(t).real, 0, dt, epsabs=1e-13)[0]
+        im = sint.quad(lambda t: f(t).imag, 0, dt, epsabs=1e-13)[0]
+        return re + 1j*im
+    worst = 0.0
+    for n in range(2):
+        for m in range(2):
+            for p_ in range(2):
+                for q in range(2):
+                    a = E[0] + eig[n] - eig[m]
+                    om = eig[p_] - eig[q]
+                    worst = max(worst, abs(out[0, n, m, p_, q] - nested(a, om)))
+    ctx.count(('grey_zone', E[0], eig[1], dt))
+    if not worst <= 1e-6*dt**2:
+        ctx.fail('gradient_vs_fd', case, {'kernel_error': worst}, 'the nested integral',
+                 {'near_degenerate_levels': True},
+                 f'_derivative_integral(E={E[0]:.3g}, eigvals=[0, {eig[1]:.3g}], dt={dt}): an entry '
+                 f'differs from the nested integral by {worst:.3g}')
+
+
 CHECKS = {'gradient_finite': check_gradient, 'gradient_shape': check_gradient,
           'gradient_vs_fd': check_gradient, 'gradient_slice': check_gradient,
           'gradient_spectrum_shape': check_gradient}
@@ -264,6 +297,8 @@ CHECKS = {'gradient_finite': check_gradient, 'gradient_shape': check_gradient,
 def replay(ctx, check, case):
     if 'seed' in case and 'zero_sens' in case:
         return check_sens_deriv(ctx, case)
+    if 'split' in case:
+        return check_grey_zone(ctx, case)
     check_gradient(ctx, case)
 
 
@@ -271,6 +306,8 @@ def search(ctx, deep=False):
     rng = ctx.rng('deep' if deep else 'search')
     n = {('quick', False): 10, ('quick', True): 60, ('thorough', False): 150,
          ('thorough', True): 400}[(ctx.tier, deep)]
+    check_grey_zone(ctx, {'E': 0.9e-7, 'split': 1.1e-7, 'dt': 1.0})
+    check_grey_zone(ctx, {'E': 0.3, 'split': 0.7, 'dt': 1.3})      # control: generic values
     for i in range(n):
         feats = gens.rand_features(rng, 0.35, ['idle', 'degenerate', 'repeat', 'neg_sens',
                                                'nontraceless_nop', 'structured'])
